@@ -44,6 +44,15 @@ Theorem C10_same_commands : forall pe_ok front_ok cfg_ok d bs,
                 = map (fun t => (pt_title (mt_test t), pt_cmd (mt_test t))) (md_tests_of d).
 Proof. exact update_same_commands. Qed.
 
+(* idempotence over the document grammar: updating the updated document again with the same bodies (a test that now
+   passes keeps its lines: C09) returns the very same document -- the new fences, the re-rendered configuration and the
+   closing lines are fixed points *)
+Theorem C10_idempotent : forall pe_ok front_ok cfg_ok d bs,
+  wf_md pe_ok front_ok cfg_ok d = true -> length bs = commands d -> wf_md pe_ok front_ok cfg_ok (subst d bs) = true ->
+  bodies_for d bs <> [] ->
+  update_md (update_md (render_md d) (bodies_for d bs)) (bodies_for d bs) = update_md (render_md d) (bodies_for d bs).
+Proof. exact update_idempotent. Qed.
+
 Example C10_same_commands_instance :   (* heading, a test with a continuation whose new body holds a fence line, trailing prose *)
   let d := [EHeading 1 [84]; EBlank; EScrut 3 (Some [32; 97]) [[35]] (Some ([99], [[100]], [BExp [111]])) []; EProse [80]] in
   let bs := [[BExp [96; 96; 96]; BCode [51]]] in
@@ -72,3 +81,4 @@ Print Assumptions C10_nothing_truncated.
 Print Assumptions C10_fence_safe.
 Print Assumptions C10_update_is_substitution.
 Print Assumptions C10_same_commands.
+Print Assumptions C10_idempotent.
